@@ -4,17 +4,23 @@ from __future__ import annotations
 import math
 import struct
 
+import json
+
 from .. import core
 from ..core import Broken, Ctx, Violation
 
 PROP_FILE = "Properties/C16.v"
+CORPUS = core.VERIF / "harness" / "corpus" / "C16"
 
 TRUSTED = [
-    "translator/c16.py (get_dtype band chain -> Gen_C16.src_dtype_chain; fails closed on any other shape)",
+    "translator/c16.py (get_dtype band chain -> Gen_C16.src_dtype_chain; the three detector-level models -> "
+    "Gen_C16.src_simple_wiring / src_sar_wiring / src_sar0_wiring; fails closed on any other shape)",
     "correspondence harness: harness/props/c16.py generators, harness/drivers/c16.py, float.hex() -> (m, e) literals",
     "modelled, not verified: numpy elementwise float64 arithmetic = IEEE-754 round-to-nearest-even (Flocq "
-    "BinarySingleNaN), np.clip = minimum(maximum()), Python int -> float64 conversion is correctly rounded, "
-    "float -> unsigned cast is only defined when the value fits",
+    "BinarySingleNaN), np.clip = minimum(maximum()), np.minimum propagates NaN, np.trunc = round toward zero, "
+    "np.nextafter(x, 0.0) = predecessor, Python int -> float64 conversion is correctly rounded and float/int "
+    "comparison is exact, float32/float16 -> float64 conversion is exact, float -> unsigned cast is only defined "
+    "when the value fits, integer -> integer cast wraps",
 ]
 
 
@@ -50,6 +56,8 @@ RANGES_FIXED = [
     (0.0, 1.0), (0.0, 5.0), (0.0, 3.3), (0.0, 10.0), (0.0, 8.934237255150775), (-5.0, 5.0), (-1.5, 2.25),
     (1.0, 1.0000000000000002), (0.0, 5e-324), (-1e280, 1e280), (0.0, 1e-300), (2.0, 3.0), (0.0, 0.1),
     (-0.1, 0.7), (0.0, 6.0), (0.0, 15.0),
+    # the scaled value overflows to +inf inside the range (finite span): must be clamped, never an undefined cast
+    (0.0, 2.0 ** 1000), (-1e307, 1e307), (-18.66, -17.07),
 ]
 
 
@@ -62,7 +70,8 @@ def gen_range(r):
     if k < 0.9:
         a = r.uniform(-20, 20)
         return (a, a + r.uniform(1e-3, 40))
-    e = r.randrange(-300, 240)  # span * 2^64 stays far below 2^1023: no intermediate overflow
+    # tiny and huge spans; above 2^959 the product span * 2^64 overflows (clamped); the span itself stays finite
+    e = r.randrange(-300, 1021)
     a = r.choice([0.0, -1.0, 1.0]) * r.random() * 2.0 ** e
     return (a, a + r.random() * 2.0 ** e + 2.0 ** (e - 40))
 
@@ -95,6 +104,7 @@ def sar_transition_points(bits, vmax, ks):
 
 def gen_case(r, kind, bits, rng_v, dense=False, frame=None):
     vmin, vmax = rng_v
+    vmin_given = vmin
     span = vmax - vmin
     M = 2 ** bits - 1
     ks = {0, 1, 2, M // 2, M - 1, M}
@@ -103,6 +113,8 @@ def gen_case(r, kind, bits, rng_v, dense=False, frame=None):
         ks.add(r.randrange(0, M + 1))
     pts = transition_points(bits, vmin, vmax, sorted(ks))
     if kind != "simple":
+        vmin = 0.0      # the SAR converters ignore the range minimum: their transitions are k * vmax / 2^bits
+        span = vmax
         sk = {1, 2, 3, 2 ** (bits - 1), 2 ** (bits - 1) + 2 ** (bits - 2), 2 ** bits - 1, 2 ** bits}
         for _ in range(n_extra + 2):
             sk.add(r.randrange(1, 2 ** bits + 1))
@@ -118,21 +130,14 @@ def gen_case(r, kind, bits, rng_v, dense=False, frame=None):
     # sorted ascending; keep -0.0/0.0 both (stable order)
     pts = sorted(set(struct.pack(">d", p) for p in pts), key=lambda b: (struct.unpack(">d", b)[0], b[0] & 0x80 == 0))
     xs = [struct.unpack(">d", b)[0] for b in pts]
-    if kind != "simple" and len(xs) > 16 and not dense:
+    cap = 48 if dense else 16
+    if kind != "simple" and len(xs) > cap:
         # the SAR loop costs `bits` float steps per voltage inside Coq: thin the frame, keep the ends
-        keep = sorted(set([0, 1, len(xs) - 2, len(xs) - 1] + r.sample(range(len(xs)), 16)))
+        keep = sorted(set([0, 1, len(xs) - 2, len(xs) - 1] + r.sample(range(len(xs)), cap)))
         xs = [xs[i] for i in keep]
     frame = r.choices(["float64", "float32", "float16"], [14, 5, 1])[0] if frame is None else frame
-    if frame != "float64":
-        # narrow frames: numpy then computes in the frame's own precision. Only settings that are meaningful
-        # in that precision are generated (range ends distinct and far from underflow, no intermediate
-        # overflow): otherwise fall back to a float64 frame.
-        import numpy as np
-        lim = {"float32": (1e-3, 1e30, 64), "float16": (1e-2, 16.0, 11)}[frame]
-        ok = (math.isfinite(span) and lim[0] <= span <= lim[1] and abs(vmin) <= lim[1] and bits <= lim[2]
-              and float(np.dtype(frame).type(vmin)) < float(np.dtype(frame).type(vmax)))
-        if not ok:
-            frame = "float64"
+    # narrow frames (Signal.TYPE_LIST allows float32/float16): the converters work on a binary64 copy, so any
+    # setting is meaningful; the voltages handed to the model are the frame's values converted exactly
     if frame != "float64":
         import numpy as np
         with np.errstate(all="ignore"):
@@ -144,25 +149,58 @@ def gen_case(r, kind, bits, rng_v, dense=False, frame=None):
                 seen_b.add(b)
                 xs2.append(v)
         xs = xs2
-    return dict(kind=kind, bits=bits, vmin=hexf(vmin), vmax=hexf(vmax), xs=[hexf(x) for x in xs],
+    case = dict(kind=kind, bits=bits, vmin=hexf(vmin_given), vmax=hexf(vmax), xs=[hexf(x) for x in xs],
                 path=r.choice(["model", "func"]), frame=frame)
+    if kind == "simple" and r.random() < 0.2:
+        # an explicit output type (data_type= of the model / dtype= of the function) at least as wide as the
+        # one get_dtype chooses: everything the property says must still hold
+        need = 8 if bits <= 8 else 16 if bits <= 16 else 32 if bits <= 32 else 64
+        case["data_type"] = r.choice([w for w in (8, 16, 32, 64) if w >= need])
+    if kind == "sarp":
+        # per-bit reference perturbations strengths[i] + noises[i] * z_i: all distinct, of the size of the bit's own
+        # reference voltage, so that a wrong index or a wrong operand changes codes
+        st, no, zs = [], [], []
+        for i in range(bits):
+            scale = abs(vmax) * 2.0 ** -(i + 2)
+            st.append(r.choice([0.0, 1.0, -1.0, 0.5, -0.25]) * scale * (1 + r.randrange(0, 8) / 8))
+            no.append(r.choice([0.0, 1.0, 0.5, 0.125]) * scale * (1 + r.randrange(0, 8) / 8))
+            zs.append(r.choice([-1.5, -0.5, 0.0, 0.25, 1.0, 2.0]))
+        case.update(strengths=[hexf(v) for v in st], noises=[hexf(v) for v in no], zs=[hexf(v) for v in zs])
+    if kind == "sar0" and case["path"] == "model" and r.random() < 0.12:
+        # the model refuses tuples that do not have adc_bit_resolution elements (ValueError)
+        case[r.choice(["n_strengths", "n_noises"])] = bits + r.choice([-1, 1])
+    return case
+
+
+def load_corpus():
+    """Formerly failing inputs (harness/corpus/C16/*.json), run first: a regression is reported with them."""
+    out = []
+    for f in sorted(CORPUS.glob("*.json")):
+        c = json.loads(f.read_text())
+        out.append({k: c[k] for k in CASE_KEYS if k in c})
+    return out
 
 
 def gen_cases(ctx: Ctx, budget: int):
     r = ctx.rng("cases")
-    cases = []
+    cases = load_corpus()
+    ctx.cov["corpus_cases"] = len(cases)
     # every resolution at least once per converter kind (61 widths): the band structure of the dtype
     for bits in range(4, 65):
         cases.append(gen_case(r, "simple", bits, RANGES_FIXED[bits % len(RANGES_FIXED)], frame="float64"))
         cases.append(gen_case(r, "simple", bits, gen_range(r)))
+    def sar_range(vmax):
+        # the SAR converters use only the range maximum; a non-zero minimum must not change anything
+        return (r.choice([v for v in (0.0, 0.0, 0.0, -1.0, 0.25, -vmax / 2, vmax / 4) if v < vmax]), vmax)
+
     for bits in range(4, 65):
-        cases.append(gen_case(r, "sar", bits, (0.0, r.choice([1.0, 8.0, 3.3, 5.0, 10.0, r.uniform(0.1, 20)]))))
-        if bits % 2 == 0:
-            cases.append(gen_case(r, "sar0", bits, (0.0, r.choice([1.0, 4.0, 8.0, 5.0, r.uniform(0.1, 20)]))))
+        cases.append(gen_case(r, "sar", bits, sar_range(r.choice([1.0, 8.0, 3.3, 5.0, 10.0, r.uniform(0.1, 20)]))))
+        nk = "sar0" if bits % 2 == 0 else "sarp"
+        cases.append(gen_case(r, nk, bits, sar_range(r.choice([1.0, 4.0, 8.0, 5.0, r.uniform(0.1, 20)]))))
     while len(cases) < budget:
-        kind = r.choices(["simple", "sar", "sar0"], [6, 2, 1])[0]
+        kind = r.choices(["simple", "sar", "sar0", "sarp"], [6, 2, 1, 1])[0]
         bits = r.randrange(4, 65)
-        rv = gen_range(r) if kind == "simple" else (0.0, r.choice([2.0, 8.0, 0.5, r.uniform(0.01, 50.0)]))
+        rv = gen_range(r) if kind == "simple" else sar_range(r.choice([2.0, 8.0, 0.5, r.uniform(0.01, 50.0)]))
         cases.append(gen_case(r, kind, bits, rv))
     return cases
 
@@ -189,7 +227,31 @@ def exhaustive_cases(ctx: Ctx, max_bits: int):
 
 # ------------------------------------------------------------------------------------------ Coq emission
 
-KIND = {"simple": "Simple", "sar": "Sar", "sar0": "Sar0"}
+KIND = {"simple": "Simple", "sar": "Sar", "sar0": "Sar0", "sarp": "Sarp"}
+CASE_KEYS = ("kind", "bits", "vmin", "vmax", "xs", "path", "frame", "data_type", "n_strengths", "n_noises",
+             "strengths", "noises", "zs")
+
+
+def top_class(c):
+    """What the plain formula gives at the range maximum (input-distribution statistic only): exactly full scale,
+    one short (the saturation override is needed), above full scale or +inf (the clamp is needed)."""
+    M = 2 ** c["bits"] - 1
+    vmin, vmax = float.fromhex(c["vmin"]), float.fromhex(c["vmax"])
+    try:
+        out = (vmax - vmin) * float(M) / (vmax - vmin)
+    except (OverflowError, ZeroDivisionError):
+        return "overflow"
+    if math.isinf(out) or math.isnan(out):
+        return "overflow"
+    t = int(out)
+    return "exact" if t == M else "short" if t < M else "exceeds"
+
+
+def perturbations(c):
+    """strengths[i] + noises[i] * z_i in binary64, exactly as the stand-in for np.random.normal computes it."""
+    return [float.fromhex(s) + float.fromhex(n) * float.fromhex(z)
+            for s, n, z in zip(c.get("strengths", []), c.get("noises", []), c.get("zs", []))]
+
 
 
 def emit_case(c, obs) -> str:
@@ -199,9 +261,12 @@ def emit_case(c, obs) -> str:
         o = "None"
     xs = core.clist(bf(float.fromhex(h)) for h in c["xs"])
     tw = "None" if "twin" not in obs else f"(Some {core.clist(str(v) for v in obs['twin'])})"
-    ex = core.cbool(c.get("frame", "float64") == "float64")
     return (f"{{| kind := {KIND[c['kind']]}; bits := {c['bits']}; vmin := {bf(float.fromhex(c['vmin']))}; "
-            f"vmax := {bf(float.fromhex(c['vmax']))}; xs := {xs}; observed := {o}; twin := {tw}; exact := {ex} |}}")
+            f"vmax := {bf(float.fromhex(c['vmax']))}; xs := {xs}; observed := {o}; twin := {tw}; "
+            f"via_model := {core.cbool(c.get('path', 'model') == 'model')}; "
+            f"data_type := {'None' if c.get('data_type') is None else '(Some %d)' % c['data_type']}; "
+            f"n_strengths := {c.get('n_strengths', c['bits'])}; n_noises := {c.get('n_noises', c['bits'])}; "
+            f"perturb := {core.clist(bf(v) for v in perturbations(c))} |}}")
 
 
 def emit_file(pairs) -> str:
@@ -210,7 +275,7 @@ def emit_file(pairs) -> str:
             "From PyxelV Require Import Lib.B64 Model.Adc.\nFrom PyxelGen Require Import Gen_C16.\n"
             "Import ListNotations.\nOpen Scope Z_scope.\n"
             f"Definition cases : list adc_case := [\n  {body}\n].\n"
-            "Eval vm_compute in mismatches src_dtype_chain cases.\n"
+            "Eval vm_compute in mismatches src_dtype_chain src_simple_wiring src_sar_wiring src_sar0_wiring cases.\n"
             "Eval vm_compute in violations cases.\n")
 
 
@@ -310,6 +375,12 @@ def correspondence(ctx: Ctx, cases, tag="c") -> tuple[list, list]:
                  "33..53" if c["bits"] <= 53 else "54..64")
         ctx.dist("path", c.get("path"))
         ctx.dist("frame", c.get("frame", "float64"))
+        ctx.dist("data_type", c.get("data_type"))
+        if c["kind"] == "simple":
+            ctx.dist("unclamped_value_at_vmax", top_class(c))
+        if c["kind"] == "sar0" and c.get("path") == "model":
+            ctx.dist("noisy_tuple_lengths", "wrong" if (c.get("n_strengths", c["bits"]) != c["bits"]
+                                                        or c.get("n_noises", c["bits"]) != c["bits"]) else "right")
     return mism, viol, pairs
 
 
@@ -318,14 +389,17 @@ def run(ctx: Ctx):
 
     ctx.trusted += TRUSTED
     ctx.assumptions += [
-        "finite vmin < vmax, 4 <= bits <= 64, NaN voltages excluded (outside the property's quantifier)",
-        "the float->unsigned cast is compared only where it is defined (value fits the type)",
+        "finite vmin < vmax with a finite span vmax - vmin (< 1.8e308), 4 <= bits <= 64, NaN voltages excluded "
+        "(outside the property's quantifier; C16_nan_undefined says what the model does with them)",
+        "the float->unsigned cast is compared only where it is defined (C16_never_wraps proves it is defined for "
+        "every generated setting, so every pixel is compared)",
     ]
+    ctx.max_reported = 8     # one replay per repaired defect (7 fixed findings) when run on an unrepaired tree
     gen = {}
     try:
         gen["Gen_C16.v"] = tr.translate(ctx.repo)
     except core.TranslationError as ex:
-        ctx.broken.append(Broken("translation", "get_dtype (pyxel/util/misc.py)", str(ex)))
+        ctx.broken.append(Broken("translation", "get_dtype (pyxel/util/misc.py) / detector-level converter models", str(ex)))
         ctx.log("translation failed:", ex)
         # keep going with the last accepted shape so that the search still has a model to run
         gen["Gen_C16.v"] = tr.FALLBACK
@@ -353,6 +427,7 @@ def run(ctx: Ctx):
                         xs=c["xs"][:5], codes=o.get("codes", [])[:5], n=len(c["xs"])))
     for c, o in viol:
         ctx.violations.append(to_violation(c, o))
+    order_violations(ctx)
     (ctx.build / "mismatches.json").write_text(__import__("json").dumps([dict(case=c, observed=o) for c, o in mism], indent=1))
     for c, o in mism:
         ctx.broken.append(Broken("correspondence", "Model/Adc.v vs implementation",
@@ -360,6 +435,26 @@ def run(ctx: Ctx):
                                  dict(case=c, observed=o)))
     if ctx.broken and not new_violations(ctx):
         search(ctx)
+
+
+def order_violations(ctx: Ctx):
+    """Reporting order only: one representative per recorded finding (open or fixed) first, so that on a tree
+    where several repaired defects are back each of them gets its own replay file."""
+    try:
+        ents = [dict(e, status="open") for e in
+                json.loads((core.VERIF / "known_findings.json").read_text()).get("findings", [])
+                if e.get("property") == ctx.prop]
+    except (OSError, ValueError):
+        return
+    first, rest, seen = [], [], set()
+    for v in ctx.violations:
+        hit = next((e["id"] for e in ents if core.finding_matches(e, v)), None)
+        if hit is not None and hit not in seen:
+            seen.add(hit)
+            first.append(v)
+        else:
+            rest.append(v)
+    ctx.violations[:] = first + rest
 
 
 def new_violations(ctx: Ctx):
@@ -374,13 +469,14 @@ def search(ctx: Ctx):
     cases = []
     for bits in range(4, 65):
         for _ in range(3):
-            kind = r.choice(["simple", "simple", "sar", "sar0"])
-            rv = gen_range(r) if kind == "simple" else (0.0, r.uniform(0.01, 50.0))
+            kind = r.choice(["simple", "simple", "sar", "sar0", "sarp"])
+            rv = gen_range(r) if kind == "simple" else (r.choice([0.0, 0.0, -1.0, 0.25]), r.uniform(0.3, 50.0))  # vmin < vmax
             cases.append(gen_case(r, kind, bits, rv, dense=True))
     cases += exhaustive_cases(ctx, 8)
     mism, viol, pairs = correspondence(ctx, cases, tag="s")
     for c, o in viol:
         ctx.violations.append(to_violation(c, o))
+    order_violations(ctx)
     ctx.cov["search_frames"] = len(pairs)
 
 
@@ -390,7 +486,7 @@ def replay(ctx: Ctx, rp: dict) -> int:
         print(f"replay names a {rp.get('kind')} that no longer checks: {rp.get('no_longer_checks')}")
         print(rp.get("detail", ""))
         return 1
-    case = {k: case[k] for k in ("kind", "bits", "vmin", "vmax", "xs", "path", "frame") if k in case}
+    case = {k: case[k] for k in CASE_KEYS if k in case}
     obs = core.run_driver(ctx, "c16", [case], workers=1)[0]
     print("case:", case)
     print("implementation now returns:", obs)
@@ -408,18 +504,22 @@ def replay(ctx: Ctx, rp: dict) -> int:
 
 META = dict(
     level_text=(
-        "Coq theorems over a bit-exact Flocq binary64 model of the three converters and over the dtype chain "
-        "regenerated from get_dtype on every run (wide-enough type for all 64 accepted resolutions; refusal outside). "
-        "The model is tied to the code by evaluating it inside Coq against apply_simple_adc / apply_sar_adc / the noisy "
-        "variant with zero noise and the detector-level models on frames of code-transition voltages +-1 ulp; the "
-        "implementation's codes are judged inside Coq against the property's specification (range, saturation at "
-        "both ends, monotonicity, type width). Where the faithful model refutes the full statement (full scale one "
-        "code short, 54..64 bits) the witness is proved and the defect is a known finding."),
+        "Coq theorems over a bit-exact Flocq binary64 model of the three converters as repaired (simple: double "
+        "precision, clamp to the largest double not above full scale, exact saturation at/above the maximum; SAR: "
+        "integer accumulator, double-precision remainder) and over the dtype chain and the detector-level wrappers "
+        "regenerated from the source on every run. Proved for EVERY resolution up to 64 bits, every finite range and "
+        "every non-NaN voltage incl. infinities: codes in 0..2^bits-1, never an undefined/wrapping cast (finite span), "
+        "monotone, 0 at/below vmin, 2^bits-1 exactly at/above vmax; SAR range/definedness/monotonicity and zero-noise "
+        "equality; whole frames of the model satisfy the specification used to judge the implementation. The model is "
+        "tied to the code by evaluating it inside Coq against apply_simple_adc / apply_sar_adc / the noisy variant "
+        "with zero noise and the detector-level models on float64, float32 and float16 frames of code-transition "
+        "voltages +-1 ulp; the implementation's codes are judged inside Coq against the specification."),
     level_note=(
         "Trusted: Coq kernel + vm_compute; Flocq's IEEE-754 formalisation (its theorems use the real-number axioms and "
         "classic); translator/c16.py; the correspondence harness; numpy float64 = IEEE-754 binary64 round-to-nearest-even, "
-        "np.clip/np.trunc semantics, correctly rounded int->float conversion. Assumes finite vmin < vmax, no intermediate "
-        "overflow ((vmax-vmin)*2^bits < 2^1023), no NaN voltages."),
-    technique="Coq proof over Flocq binary64 model + regenerated dtype table + in-Coq correspondence/spec evaluation",
+        "np.clip/np.trunc/np.minimum/np.nextafter semantics, correctly rounded int->float conversion, exact "
+        "float32/float16->float64 conversion. Assumes finite vmin < vmax with a finite span, no NaN voltages (their "
+        "effect is stated: undefined cast)."),
+    technique="Coq proof over Flocq binary64 model + regenerated dtype table and wrapper table + in-Coq correspondence/spec evaluation",
     design_ref="DESIGN.md section 6, C16",
 )
